@@ -70,6 +70,7 @@ type Frame struct {
 	selfClos *closureInfo
 	parent  *Frame
 	panicReach []string
+	splitReturn map[*ssa.BasicBlock]bool
 }
 
 func (fr *Frame) l() *Layouter { return fr.eng.lay }
@@ -429,6 +430,23 @@ func freeVarReadOnly(fn *ssa.Function, fv *ssa.FreeVar, depth int) bool {
 	return true
 }
 
+func pureReturnBlock(b *ssa.BasicBlock) bool {
+	if len(b.Instrs) == 0 {
+		return false
+	}
+	if _, ok := b.Instrs[len(b.Instrs)-1].(*ssa.Return); !ok {
+		return false
+	}
+	for _, in := range b.Instrs[:len(b.Instrs)-1] {
+		switch in.(type) {
+		case *ssa.Phi, *ssa.DebugRef:
+		default:
+			return false
+		}
+	}
+	return true
+}
+
 // ---------------------------------------------------------------------------
 
 func (fr *Frame) edgeCond(from, to *ssa.BasicBlock) string {
@@ -610,6 +628,7 @@ func (fr *Frame) run(entryReach string) {
 	}
 	fr.reach = map[*ssa.BasicBlock]string{}
 	fr.exit = map[*ssa.BasicBlock]*State{}
+	fr.splitReturn = map[*ssa.BasicBlock]bool{}
 	for _, b := range fr.order {
 		var st State
 		if b.Index == 0 {
@@ -636,6 +655,27 @@ func (fr *Frame) run(entryReach string) {
 			}
 			r := fr.vc.bindBool(fmt.Sprintf("reach_b%d", b.Index), sOr(edges...))
 			fr.reach[b] = r
+			// a return block that only joins paths: report one return per incoming path, so that
+			// postconditions are proved per path (algebraic goals need the un-merged values)
+			if fr.top && len(preds) > 1 && fr.loops[b] == nil && pureReturnBlock(b) {
+				ret := b.Instrs[len(b.Instrs)-1].(*ssa.Return)
+				for i, p := range preds {
+					var vals []string
+					for _, res := range ret.Results {
+						if phi, ok := res.(*ssa.Phi); ok && phi.Block() == b {
+							for k, bp := range b.Preds {
+								if bp == p {
+									vals = append(vals, fr.val(phi.Edges[k])...)
+								}
+							}
+						} else {
+							vals = append(vals, fr.val(res)...)
+						}
+					}
+					fr.rets = append(fr.rets, retInfo{reach: edges[i], vals: vals, st: sts[i].clone(), pos: ret.Pos()})
+				}
+				fr.splitReturn[b] = true
+			}
 			if li := fr.loops[b]; li != nil {
 				st = fr.enterLoop(li, preds, edges, sts)
 			} else {
